@@ -35,7 +35,7 @@ DTS = [10.0 ** k for k in (-4, -3, -2, -1, 0, 1, 2, 3, 4)]
 SETUPS = ["dirichlet", "noflux", "periodic", "mixed"]
 UMAGS = [1.0, 2.0 ** 12, 2.0 ** -40]        # cell Peclet numbers from ~1 to ~1e4 and creeping flow
 DPATS = ["one", "zero_face", "checker_2e6", "checker_1e6", "axis_contrast"]
-SHAPES = {1: [(3,), (1,)], 2: [(2, 3)], 3: [(2, 2, 2)]}
+SHAPES = {1: [(3,), (1,)], 2: [(2, 3), (3, 1)], 3: [(2, 2, 2), (2, 1, 2), (1, 3, 1)]}
 
 
 def bounds(tier):
